@@ -481,8 +481,12 @@ func (o RevocationOracle) AtEnd(m *VM) {
 func (RevocationOracle) checkToken(m *VM, rec *Rec, t *TokObj) {
 	ids := t.B.RevocationIds()
 	m.Probe("revocation_token_checked")
-	if len(ids) != 1+t.B.BlockCount() {
-		m.Violate("C17", "id-count", "number of revocation ids differs from the number of blocks", fmt.Sprintf("op %d: %d ids, %d blocks", rec.I, len(ids), 1+t.B.BlockCount()))
+	want := 1 + t.B.BlockCount()
+	if t.Abs != nil && !t.Hostile {
+		want = len(t.Abs.Blocks) // the blocks its callers signed, not what the library says it holds
+	}
+	if len(ids) != want {
+		m.Violate("C17", "id-count", "number of revocation ids differs from the number of blocks", fmt.Sprintf("op %d: %d ids, %d blocks", rec.I, len(ids), want))
 		return
 	}
 	// prefix stability
